@@ -160,6 +160,41 @@ def run(F, tier, res):
             res.violate('BROKEN-PIPE', 'fn=%s;noisy-arm' % p, 'the BrokenPipe arm prints an error message / calls fatal: a quit pager is not silent', where=F.bodies[p]['mir']['span']['at'])
             continue
         okb += 1
+    # ... and nothing is printed between the failing output call and the test for BrokenPipe either (`wait()...unwrap_or_else(|| eprintln!(..))`
+    # hoisted in front of the test reports a child killed by the closed pipe)
+    printers = {q for q in F.fn_bodies if any(callee_of(cc) == 'std::io::_eprint' for _, cc in F.calls(q))}
+    can_print = F.reverse_reaching(list(printers)) | printers
+    P_ = F.preds(p)
+
+    def _prints(cc):
+        cal = callee_of(cc)
+        if cal == 'std::io::_eprint' or cal in can_print or (cc.get('resolved') or '') in can_print:
+            return True
+        return any(x[0] == 'agg' and x[1][0] == 'closure' and x[1][1] in can_print for a in cc['args'] for x in F.trace(p, a))
+    for (sb, bp, others) in ks:
+        if bp is None:
+            continue
+        srcs = [r for r in F.trace(p, blocks[sb]['t'][1], deep=True) if r[0] == 'call' and r[1] in F.fn_bodies and 'std::io::Error' in r[4].get('dest_ty', '')]
+        back = set()
+        work = [sb]
+        while work:
+            x = work.pop()
+            if x in back:
+                continue
+            back.add(x)
+            work += list(P_.get(x, ()))
+        for r in srcs:
+            tgt = r[4].get('target')
+            if tgt is None:
+                continue
+            nb += 1
+            between = (reach(S, [tgt]) | {tgt}) & back
+            noisy = [b for b in between if blocks[b]['t'][0] == 'call' and b != r[2] and _prints(blocks[b]['t'][1])]
+            if noisy:
+                res.violate('BROKEN-PIPE', 'fn=%s;noisy-before-arm' % p, 'between the output call that can fail with BrokenPipe (%s) and the test for it, run_app calls something that prints to stderr (%s): '
+                            'when the reader has gone away delta is not silent' % (r[1].split('::')[-1], callee_of(blocks[noisy[0]]['t'][1]).split('::')[-1]), where=F.span_of_call(blocks[noisy[0]]['t'][1]))
+            else:
+                okb += 1
     # printing an io::Error obtained from an output path is allowed only on a non-BrokenPipe arm
     for i, c in F.calls(p):
         if callee_of(c) != 'std::io::_eprint':
